@@ -149,6 +149,14 @@ def finish(ctx: Ctx, error=None) -> int:
   rc = 0
   replay_paths = []
   if real:
+    groups = {}
+    for v in real:
+      key = (v["clause"],) + tuple(sorted((k, str(x)) for k, x in v["features"].items()
+                                          if isinstance(x, (bool, str)) and k != "clause" and len(str(x)) < 40))
+      groups[key] = groups.get(key, 0) + 1
+    print(f"SUMMARY property={ctx.pid}: {len(real)} violating case(s) in {len(groups)} group(s)")
+    for key, n in sorted(groups.items(), key=lambda kv: -kv[1])[:40]:
+      print(f"  {n:6d} x {key[0]} " + " ".join(f"{k}={x}" for k, x in key[1:]))
     os.makedirs(os.path.join(REPLAY_DIR, ctx.pid), exist_ok=True)
     seen = set()
     for v in real:
